@@ -112,7 +112,7 @@ def select(themes, deep, tier):
     sample"""
     seen = set()
     keep = list(deep)
-    mod = 40 if tier == 'quick' else 4
+    mod = 40 if tier == 'quick' else 20
     for n in THEMES:
         for s in themes[n]:
             new = False
@@ -152,7 +152,7 @@ def main_for(prop, tier, seed, replay=None):
     build_scratch()
     rng = random.Random(seed)
     themes = gen.run_themes(THEMES, tier, rep, jobs=11)
-    r, deep = gen.simulate(1500 if tier == 'quick' else 30000,
+    r, deep = gen.simulate(1500 if tier == 'quick' else 8000,
                            maxtok=30 if tier == 'quick' else 40, maxnl=1,
                            seed=seed + 11, workers=8)
     rep.add_tlc(r)
